@@ -36,7 +36,9 @@ LEVEL_NOTE = (
     "(3) every read (respond_to_read=True, a value was set/initialised) is answered in the same instant and every answer carries the latest set payload; "
     "(4) skip_unchanged: a call whose payload differs from the previously set payload is an update and falls under (2). "
     "A set(skip_unchanged=True) with the same payload may or may not be sent. Recorded only: periodic writes, reads with respond_to_read=False, reads before "
-    "any value, and everything but (1) in histories containing foreign writes to the exposed address."
+    "any value, reads and the final probe in histories containing foreign telegrams on the exposed address. In those histories (40% of the fast ones with a cooldown get "
+    "foreign GroupValueWrite / GroupValueResponse telegrams, same and different values, placed inside running cooldowns) rule (2) reads: the latest set payload "
+    "was the value last on the bus - own or foreign telegram - at some moment between the update and its deadline."
 )
 SHARDS = {"quick": 1, "thorough": 16}
 TIMEOUT = {"quick": 120, "thorough": 1500}
@@ -124,6 +126,24 @@ def gen(rng: random.Random, index: int) -> dict:
         spec["respond_to_read"] = True
         spec["events"] = [e for e in events if e["op"] != "foreign"]
         spec["tail"] = spec["tail"] + 10
+    if "slow" not in spec and cooldown > 0 and rng.random() < 0.4:
+        # another device writes / responds on the exposed address while a cooldown runs (same and different values)
+        sets = [e for e in events if e["op"] == "set"]
+        extra = []
+        for _ in range(rng.randint(1, 3)):
+            if not sets:
+                break
+            base_ev = rng.choice(sets)
+            at = base_ev["t"] + rng.choice((G / 2, cd / 4 + G / 2, cd / 2 + G / 2, cd - G / 2))
+            value = base_ev["value"] if rng.random() < 0.3 else rng.choice(pool)
+            extra.append({"t": at, "op": "foreign", "value": value, "as": rng.choice(("write", "write", "response"))})
+            if rng.random() < 0.6:
+                # ... and the value set before is set again inside the same cooldown
+                extra.append({"t": at + rng.choice((G / 2 + G / 4, cd / 8)), "op": "set", "value": base_ev["value"], "skip": rng.random() < 0.3})
+        events = sorted(events + extra, key=lambda e: e["t"])
+        spec["events"] = events
+    if "slow" in spec:
+        pass
     elif cooldown > 0 and rng.random() < 0.45:
         # connection flaps through the real ConnectionManager while a cooldown runs (instants off the 2^-6 grid)
         sets = [e["t"] for e in events if e["op"] == "set"] or [0.0]
@@ -189,6 +209,7 @@ def run_case(ctx, spec: dict) -> str | None:
         last_update_index = -1
         idx = 0
         wire_seen = 0
+        bus_log: list = []  # (offset, payload) of every value telegram on the address, own or foreign
 
         def absorb_wire() -> list:
             nonlocal wire_seen, bus
@@ -197,10 +218,22 @@ def run_case(ctx, spec: dict) -> str | None:
             for s in new:
                 if s.dst == ga and s.kind in ("write", "response"):
                     bus = payload_repr(s.value)
+                    bus_log.append((s.time - t0, bus))
             return new
 
         def tainted(t: float) -> bool:
             return tainted_from is not None and t >= tainted_from
+
+        def on_bus_between(payload, t_from: float, t_to: float) -> bool:
+            """Was `payload` the value last on the bus at some moment of [t_from, t_to]? (own telegrams, foreign telegrams
+            on the address and initialize_value's 'as if sent' all count; the value already there at t_from counts)"""
+            current = None
+            for bt, bp in bus_log:
+                if bt < t_from:
+                    current = bp
+                elif bt <= t_to + 2 * SLACK and bp == payload:
+                    return True
+            return current == payload
 
         async def run_deadlines(until: float) -> bool:
             """Probe all update deadlines that are due before `until` (exclusive) or at it when final."""
@@ -212,12 +245,18 @@ def run_case(ctx, spec: dict) -> str | None:
                 if ui != last_update_index:
                     continue  # superseded by a later update
                 ctx.ev()
-                if tainted(d):
-                    ctx.count("deadline_recorded_only_foreign_write")
-                    continue
                 ctx.count("deadline_probes")
                 trace.append(("deadline", d, latest, bus))
-                if bus != latest:
+                if tainted_from is not None:
+                    # other devices write to the address too: what the statement still says is that the latest set value was the
+                    # value last on the bus at some moment between the update and its deadline (sent, or already / also there)
+                    ctx.count("deadline_probes_with_foreign_telegrams")
+                    ok = on_bus_between(latest, events[ui]["t"], d)
+                    if ok and bus != latest:
+                        ctx.count("deadline_met_but_foreign_value_on_bus_afterwards")
+                else:
+                    ok = bus == latest
+                if not ok:
                     viol("latest-value-not-on-bus-one-cooldown-after-last-update",
                          f"update at +{events[ui]['t']} set payload {latest}; at +{d} (cooldown {cooldown}) the bus still carries {bus}",
                          {"update": events[ui], "deadline": d})
@@ -268,14 +307,21 @@ def run_case(ctx, spec: dict) -> str | None:
                 latest = None if e["value"] is None else payload_repr(dev.sensor_value.to_knx(e["value"]))
                 if latest is not None:
                     bus = latest  # "treated as if it had been sent"
+                    bus_log.append((t, bus))
                 last_update_index = i
                 await h.settle()
                 absorb_wire()
             elif op == "foreign":
-                h.incoming_write(GA, dev.sensor_value.to_knx(e["value"]))
-                await h.settle()
                 absorb_wire()
-                bus = payload_repr(dev.sensor_value.to_knx(e["value"]))
+                if dev._cooldown_task is not None and not dev._cooldown_task.done():
+                    ctx.count("foreign_telegram_while_cooldown_runs")
+                fp = dev.sensor_value.to_knx(e["value"])
+                ctx.count("foreign_same_as_latest" if payload_repr(fp) == latest else "foreign_differs_from_latest")
+                (h.incoming_response if e.get("as") == "response" else h.incoming_write)(GA, fp)
+                await h.settle()
+                bus = payload_repr(fp)
+                bus_log.append((t, bus))
+                absorb_wire()
             elif op == "conn":
                 from xknx.core import XknxConnectionState
                 from xknx.core.connection_state import XknxConnectionType
@@ -462,7 +508,8 @@ def run(ctx):
     ctx.require("deadline_probes", "reads_judged", "spacing_checks", "spacing_at_the_limit", "writes_periodic", "writes_update_caused",
                 "set_skippable_same_payload", "set_skip_flag_but_payload_differs", "op_init", "final_probes", "slow_reads_judged",
                 "slow_reads_while_a_telegram_is_queued_or_in_flight", "slow_final_probes", "connection_lost_while_cooldown_runs",
-                "deadline_extended_by_connection_flap")
+                "deadline_extended_by_connection_flap", "deadline_probes_with_foreign_telegrams", "foreign_telegram_while_cooldown_runs",
+                "foreign_differs_from_latest", "foreign_same_as_latest")
     n = ctx.scale(600, 6000 * 16)
     for i in range(n):
         if not ctx.mine(i):
